@@ -447,6 +447,19 @@ def _find_target_of_reference(
                     # imports, which can't refer to other imports.
                     assert not referenced_table.alias, "Alias found to contain alias."
                 found_in_table = referenced_table
+        if not found_in_table.canonical_name.object_path:
+            # The name of an imported module by itself does not name an object.
+            errors.append(
+                [
+                    error.error(
+                        source_file_name,
+                        reference.source_location,
+                        "'{}' is an imported module, not a field, type, or "
+                        "value.".format(reference.source_name[-1].text),
+                    )
+                ]
+            )
+            return None
         return found_in_table
     return None
 
